@@ -17,10 +17,37 @@ ORDER_SPEC = ['PAT_TRACK', 'PAT_HURDLES', 'PAT_JUMPS', 'PAT_THROWS', 'PAT_RELAYS
 FIELD_ORDER_SPEC = ['HJ', 'PV', 'LJ', 'TJ', 'SP', 'DT', 'HT', 'JT']
 
 
+FAMILIES = ['PAT_MULTI', 'PAT_TRACK', 'PAT_ROAD', 'PAT_RELAYS', 'PAT_THROWS', 'PAT_JUMPS', 'PAT_HURDLES',
+            'PAT_RACES_FOR_DISTANCE', 'PAT_HIGHSCORING_EVENT', 'PAT_LOWSCORING_EVENT']
+
+
 def report_interp(ctx, rel, qual, it, known_raise_ok=False):
     n = 0
+    P = it.P
     for node, kind, msg, w, detail in it.findings:
         rule = KIND_RULE.get(kind, 'R1')
+        if kind == 'raise':
+            # one finding per event family that can reach the raise (so a newly unhandled family is a new finding)
+            lang = P.EMPTY
+            for st, inp in it.raises:
+                if st is node:
+                    lang = rx.union(lang, inp)
+            covered = P.EMPTY
+            exc = node.exc.func if isinstance(node.exc, ast.Call) else node.exc
+            rkey = 'raise %s' % (ast.unparse(exc) if exc is not None else '')
+            for fam in FAMILIES:
+                wf = P.wit(rx.inter(lang, P.dfa(fam)))
+                covered = rx.union(covered, P.dfa(fam))
+                if wf is not None:
+                    ctx.finding(rule, '%s::%s::%s::family %s' % (rel, qual, rkey, fam), rel, node.lineno,
+                                'an accepted %s code reaches this raise' % fam, {'input': wf})
+                    n += 1
+            wo = P.wit(rx.diff(lang, covered))
+            if wo is not None:
+                ctx.finding(rule, '%s::%s::%s' % (rel, qual, rkey), rel, node.lineno,
+                            'an accepted code reaches this raise', {'input': wo})
+                n += 1
+            continue
         missing = (detail or {}).get('missing')
         if kind == 'index-missing' and missing and len(missing) < 12:
             for mval in missing:
